@@ -168,3 +168,25 @@ def implies(f, g, limit=16):
 
 def show(env):
     return ", ".join("%s=%s" % (k[:60], "T" if v else "F") for k, v in sorted(env.items()))
+
+
+def partial(f, env):
+    """Simplify a formula under a partial assignment {atom key: bool}."""
+    k = f[0]
+    if k == "const":
+        return f
+    if k == "atom":
+        return ("const", env[f[1]]) if f[1] in env else f
+    if k == "not":
+        g = partial(f[1], env)
+        return ("const", not g[1]) if g[0] == "const" else ("not", g)
+    parts = [partial(x, env) for x in f[1]]
+    if k == "and":
+        if any(p[0] == "const" and not p[1] for p in parts):
+            return ("const", False)
+        parts = [p for p in parts if p[0] != "const"]
+        return ("and", parts) if parts else ("const", True)
+    if any(p[0] == "const" and p[1] for p in parts):
+        return ("const", True)
+    parts = [p for p in parts if p[0] != "const"]
+    return ("or", parts) if parts else ("const", False)
